@@ -303,7 +303,11 @@ func runC07_10(c *core.Ctx) {
 			// composite literal owners: el := eventloop{poller: p, …}
 			ast.Inspect(f.Decl.Body, func(n ast.Node) bool {
 				if as, ok := n.(*ast.AssignStmt); ok && len(as.Lhs) == 1 && len(as.Rhs) == 1 {
-					if cl, ok := ast.Unparen(as.Rhs[0]).(*ast.CompositeLit); ok {
+					rhs := ast.Unparen(as.Rhs[0])
+					if ue, ok := rhs.(*ast.UnaryExpr); ok && ue.Op == token.AND { // el := &eventloop{poller: p, …}
+						rhs = ast.Unparen(ue.X)
+					}
+					if cl, ok := rhs.(*ast.CompositeLit); ok {
 						for _, el := range cl.Elts {
 							if kv, ok := el.(*ast.KeyValueExpr); ok && flow.ObjOf(f.Info, kv.Value) == a.obj {
 								if o := flow.ObjOf(f.Info, as.Lhs[0]); o != nil {
